@@ -302,7 +302,7 @@ def table_names_semantics():
     from pdb2pqr import forcefield
 
     defn = fixtures.pristine_definition()
-    dat = ["DA   N1  -0.7000 1.8000\n", "DA5  N1  -0.5000 1.7000\n", "DA3  N1  -0.6000 1.6000\n", "DAX  N1  -0.1000 1.1000\n", "ALA  CA   0.1000 1.9000\n", "ALA  HB1  0.0100 1.1000\n", "ALA  HB2  0.0200 1.2000\n", "ALX  CA   0.3000 1.3000\n"]
+    dat = ["DA   N1  -0.7000 1.8000\n", "DA5  N1  -0.5000 1.7000\n", "DA3  N1  -0.6000 1.6000\n", "DAX  N1  -0.1000 1.1000\n", "ALA  CA   0.1000 1.9000\n", "ALA  HB1  0.0100 1.1000\n", "ALA  HB2  0.0200 1.2000\n", "ALX  CA   0.3000 1.3000\n", "XALA CA   0.4000 1.4000\n"]
     cases = [
         ("<residue><name>DA</name><useresname>DAX</useresname></residue>", [("DA", "N1", (-0.1, 1.1)), ("DA5", "N1", (-0.5, 1.7)), ("DA3", "N1", (-0.6, 1.6))]),
         ("<residue><name>AL</name><useresname>ALX</useresname></residue>", [("ALA", "CA", (0.1, 1.9))]),
@@ -311,6 +311,8 @@ def table_names_semantics():
         # atom aliases of one section are applied in document order: a renumbering chain (HB3 -> HB2, then HB2 -> HB1)
         ("<residue><name>ALA</name><atom><name>HB3</name><useatomname>HB2</useatomname></atom><atom><name>HB2</name><useatomname>HB1</useatomname></atom></residue>", [("ALA", "HB3", (0.02, 1.2)), ("ALA", "HB2", (0.01, 1.1)), ("ALA", "CA", (0.1, 1.9))]),
         ("<residue><name>ALA</name><atom><name>HB2</name><useatomname>HB1</useatomname></atom><atom><name>HB3</name><useatomname>HB2</useatomname></atom></residue>", [("ALA", "HB2", (0.01, 1.1)), ("ALA", "HB3", (0.01, 1.1))]),
+        # a $group section overlays the atoms of the residue it names onto a residue the parameter file already defines (cumulative)
+        ("<residue><name>(AL.)$</name><useresname>X$group</useresname></residue>", [("ALA", "CA", (0.4, 1.4)), ("ALA", "HB1", (0.01, 1.1)), ("DA", "N1", (-0.7, 1.8))]),
     ]
     rows = 0
     violations = []
